@@ -1,2 +1,3 @@
 import QsGen.Position
 import QsGen.Kernels
+import QsGen.Plan
